@@ -8,6 +8,7 @@ A history is a list of commands (JSON-able dicts):
   {'op': 'reconfigure', 'D': [...]}                      meson setup --reconfigure -D... <bd> <src>
   {'op': 'wipe'}                                         meson setup --wipe <bd> <src>
   {'op': 'edit', 'proj': 'top'|'sub', 'name': n, 'spec': spec|None}    rewrite the option file (None removes n)
+  {'op': 'corrupt'}                                      truncate coredata.dat (next --reconfigure regenerates)
 
 `key` is written as on the command line: `t_str`, `sub:s_str`, `warning_level`, `sub:warning_level`.
 An option spec is {'t': 'string'|'boolean'|'combo'|'integer'|'array', 'd': default, ['c': choices (array: may be
@@ -172,8 +173,11 @@ def read_core(bd: str) -> T.Optional[dict]:
         return None
     import pickle
     from mesonbuild.options import OptionKey
-    with open(fn, 'rb') as f:
-        cd = pickle.load(f)
+    try:
+        with open(fn, 'rb') as f:
+            cd = pickle.load(f)
+    except (pickle.UnpicklingError, EOFError):
+        return {'corrupt': True}
     st = cd.optstore
     eff: T.Dict[str, str] = {}
     own: T.Dict[str, str] = {}
@@ -226,7 +230,12 @@ def run_history(init_files: T.Dict[str, T.Dict[str, dict]], hist: T.List[dict], 
         write_tree(src, files)
         for i, cmd in enumerate(hist):
             ob: T.Dict[str, T.Any] = {'rc': 'ok', 'msgs': None}
-            if cmd['op'] == 'edit':
+            if cmd['op'] == 'corrupt':
+                # coredata.dat is damaged behind meson's back (truncated to nothing)
+                cdf = os.path.join(bd, 'meson-private', 'coredata.dat')
+                if os.path.isfile(cdf):
+                    open(cdf, 'w').close()
+            elif cmd['op'] == 'edit':
                 if cmd['spec'] is None:
                     files[cmd['proj']].pop(cmd['name'], None)
                 else:
